@@ -4,7 +4,12 @@ import os
 from vlib import common as C, coapgen as G
 import props.C01 as B
 
-# MANIFEST is defined only once the check is clean on the unchanged tree at seeds 1..5 (FRAMEWORK.md §1).
+# clean (exit 0 + KNOWN-FINDING) at seeds 1..5 on 2026-09-26; the text leads with what is NOT proved.
+MANIFEST = {
+    "text": 'PARTIAL. Proved in Lean: the frame theorem for abstract edits (only the named option/token changes, every other option keeps number, value and position, payload unchanged, order kept over any edit sequence); coap_update_token refines the abstract token replacement for every token length and direction; a PDU representing a well-formed message serialises and re-parses to it. NOT proved: that coap_insert_option, coap_update_option and coap_remove_option refine the abstract edits (the next-option header rewrite cases) and hence the round trip after sequences containing them — for these the claim rests on differential runs only (edit sequences up to 45 calls on parsed and built messages, thresholds 13/269 crossed in both directions, tight maximum sizes; I vs M vs S byte for byte, per-call digests).',
+    "note": 'Same trusted base, fixes and open finding as C01. Removal branches are exercised but not individually attributable from the harness output. Exit 0 depends on the unproved theorems being declared in NOT_PROVED rather than required.',
+    "design_ref": "design/C04.md, DESIGN.md §4 C04",
+}
 
 LEAN_MODULES = ["CoapVerif.Props.C04"]
 NAMESPACE = "Coap.C04"
